@@ -37,6 +37,12 @@ BUFFER_RULE = ("TLC enumerates every sequence of Write/WriteByte/WriteRune/SetMo
                "states (buf, validUntil, mode, markerOpen) reached on the real object")
 
 
+def long_payloads(ctx):
+    """payload lengths around the size thresholds of the implementation (64-byte small buffer, doubling growth, the
+    64 KiB pool limit, any size-dependent fast path): buffer histories and printing calls, judged model-free"""
+    ctx.harness(["long-drive", "-prop", ctx.prop, "-reps", str(tier(ctx, 2, 12))])
+
+
 def buffer_traces(ctx):
     """random long histories on the real ManualBuffer: judged by the predicates, every step validated by TLC"""
     n, tracen = tier(ctx, (3000, 20000), (60000, 150000))
@@ -144,9 +150,8 @@ def c05(ctx):
 
 def c06(ctx):
     printer_slice(ctx, "wrap")
+    printer_slice(ctx, "wrap", hook="plain")     # "errors handled by a registered error hook": bypassed under Unsafe()
     mode_traces(ctx)
-    if ctx.tier == "thorough":
-        printer_slice(ctx, "wrap", hook="plain")
     printer_control_f3(ctx)
 
 
@@ -160,6 +165,7 @@ def c11(ctx):
         printer_slice(ctx, "smoke")
         printer_slice(ctx, "wrap")
         buffer_traces(ctx)
+    long_payloads(ctx)
 
 
 def c15(ctx):
@@ -314,6 +320,7 @@ def c01(ctx):
         printer_slice(ctx, "smoke")
         printer_slice(ctx, "panic")
         printer_slice(ctx, "dir")
+    long_payloads(ctx)
 
 
 def c03(ctx):
@@ -326,6 +333,7 @@ def c03(ctx):
     printer_slice(ctx, tier(ctx, "qcompose", "compose"), module="MCCompose", cfg="Compose.cfg")
     if ctx.tier == "thorough":
         printer_slice(ctx, "smoke")
+    long_payloads(ctx)
 
 
 def writer_model(ctx):
@@ -339,6 +347,7 @@ def c09(ctx):
     buffer_model(ctx)
     buffer_traces(ctx)
     repo_suite_traces(ctx)
+    long_payloads(ctx)
 
 
 def c08(ctx):
@@ -365,6 +374,7 @@ def c13(ctx):
     buffermem_model(ctx)
     buffer_traces(ctx)
     repo_suite_traces(ctx)
+    long_payloads(ctx)
 
 
 PRINTER_RULE = ("TLC runs the Printer specification (transcription of printArg/handleMethods/printValue/catchPanic/"
